@@ -7,7 +7,7 @@ import re
 
 HERE = os.path.dirname(os.path.dirname(os.path.abspath(__file__)))
 BEGIN, END = "<!-- seeded-table:begin -->", "<!-- seeded-table:end -->"
-ROUND = {"a": 1, "b": 1, "c": 2, "d": 2, "e": 3, "f": 3, "g": 4, "h": 4, "i": 5, "j": 5, "k": 6, "l": 6, "m": 7, "n": 7, "o": 8, "p": 8, "q": 9, "r": 9}
+ROUND = {"a": 1, "b": 1, "c": 2, "d": 2, "e": 3, "f": 3, "g": 4, "h": 4, "i": 5, "j": 5, "k": 6, "l": 6, "m": 7, "n": 7, "o": 8, "p": 8, "q": 9, "r": 9, "s": 10, "t": 10}
 
 
 def main():
@@ -17,7 +17,7 @@ def main():
         m = json.load(open(f"{d}/meta.json"))
         sid = m["id"]
         notes = open(f"{d}/NOTES.md").read() if os.path.exists(f"{d}/NOTES.md") else ""
-        letter = "A" if sid[-1] in "acegikmoq" else "B"
+        letter = "A" if sid[-1] in "acegikmoqs" else "B"
         t = re.search(rf"(?m)^## Change {letter}\s*[—:-]+\s*(.*)$", notes)
         title = re.sub(r"`[ab]\.diff`\s*[:—-]*\s*", "", (t.group(1) if t else "")).replace("|", "/").strip(" :—-")[:150]
         caught = ", ".join(m.get("caught_by") or []) or "**not caught**"
